@@ -193,6 +193,15 @@ theorem hint_sound_merge_full_witness : ¬ hint_sound_merge_full := by
   obtain ⟨srcs, out, hs, hm, hbad⟩ := Prom.HistWitness.hint_sound_merge_full_witness_aux
   rw [hfull srcs out hs hm] at hbad; cases hbad
 
+/-- **Trimmed query ranges (the positive side of finding C12-F1).**  Whatever contiguous sub-range of a hint-sound
+    stream a query returns (samples before `mint` and after `maxt` filtered out afterwards, as `DeletedIterator`
+    does), the only sample that can carry an unjustified NotCounterReset is the FIRST returned one: every
+    NotCounterReset sample that has a predecessor in the result is sound.  (`hint_first_of_trimmed_query_witness`
+    below shows the first one can indeed be flagged.) -/
+theorem hint_sound_trimmed (l : List (Int × Hist)) (h : hintsSound l = true) (k m : Nat) :
+    unsoundAt none 0 ((l.drop k).take m) = none ∨ unsoundAt none 0 ((l.drop k).take m) = some 0 :=
+  hintsSound_subrange l h k m
+
 /-- The literal statement fails for queries that start inside a chunk (finding C12-F1): the first returned
     sample keeps NotCounterReset although nothing precedes it in the result. -/
 theorem hint_first_of_trimmed_query_witness :
